@@ -60,6 +60,15 @@ def worker_init():
             ANNOUNCEMENT = ''
 
 
+def _ensure_tmpdir():
+    global _tmpdir
+    if _tmpdir is None or not os.path.isdir(_tmpdir):
+        base = '/dev/shm' if os.path.isdir('/dev/shm') and os.access('/dev/shm', os.W_OK) else None
+        _tmpdir = tempfile.mkdtemp(prefix='bbverif-dfu-', dir=base)
+        import atexit
+        atexit.register(shutil.rmtree, _tmpdir, True)
+
+
 def firmware_bytes(fw):
     n, kind, seed = fw['len'], fw.get('kind', 'random'), fw.get('seed', 0)
     if kind == 'zeros':
@@ -124,6 +133,7 @@ def execute(scen, res, log):
     clock = dfudev.SimClock(log)
     dev = dfudev.SimDfuSe(scen, clock, log, init, res, step_budget(scen))
     dfudev.set_device(dev)
+    _ensure_tmpdir()
     path = os.path.join(_tmpdir, 'fw-%d.bin' % os.getpid())
     with open(path, 'wb') as f:
         f.write(fw)
